@@ -317,6 +317,7 @@ def run(chk):
     )
     chk.not_decided = "arithmetic correctness of the offsets themselves; equality of delivered bodies/chunk boundaries under all cuts (value level)."
     chk.explanation += " Also decided: the input buffer is only extended at the front by the saved tail or consumed from the front, the saved remainder is the whole unconsumed input, offsets are recomputed when the buffer is rebound, no decision reads a stale snapshot of parser state, and a one-shot latch that inspects the buffer is consumed only by a non-empty buffer. After the defect hunt: CONNECT tunnel bytes must reach the payload stream the parser owns whichever read they arrive in (known finding F87)."
+    chk.explanation += " Round 4 / second hunt: bytes consumed in a chunk state are recorded before more input is requested; sibling validation sites of one grammar normalise alike. Known: requests completed before a malformed one in the same read are dropped (F122)."
     hp = repo.func(MOD, "HttpParser.feed_data")
     pp = repo.func(MOD, "HttpPayloadParser.feed_data")
     for fn, nm in ((hp, "message-head parser"), (pp, "body parser")):
